@@ -312,6 +312,117 @@ def run_contexts(impl, ctx_quick):
     return n, mism, wit
 
 
+# ------------------------------------------------------------------ large tensors (block-wise fills, tails)
+BLOCK = 65536
+LARGE_SHAPES = [(1, 65537), (70, 1000), (300, 300), (96, 32, 5, 5), (2, 65538), (256, 256)]     # 65536k + r, and one exact multiple
+
+
+def _count(size):
+    if size is None:
+        return 1
+    if isinstance(size, (int,)) or hasattr(size, "__index__"):
+        return int(size)
+    n = 1
+    for d in size:
+        n *= int(d)
+    return n
+
+
+def judge_large(np, name, doc, calls, t, out, data_before_id, shape, dtype):
+    """doc = (kind, x, y) documented numpy call. Returns the list of problems."""
+    bad = []
+    x = t.data
+    if out is not t:
+        bad.append("returns a different object")
+    if tuple(x.shape) != tuple(shape) or x.dtype != np.dtype(dtype):
+        bad.append("shape/dtype %s %s -> %s %s" % (shape, np.dtype(dtype), x.shape, x.dtype))
+        return bad
+    n = x.size
+    drawn = sum(_count(c[3]) for c in calls)
+    if drawn != n:
+        bad.append("%d samples were requested from numpy.random for a tensor of %d elements" % (drawn, n))
+    for c in calls:
+        if not same_call(c, doc):
+            bad.append("numpy.random.%s(%r, %r), documented %s(%r, %r)" % (c[0], c[1], c[2], doc[0], doc[1], doc[2]))
+            break
+    v = x.reshape(-1).astype(np.float64)
+    if not np.all(np.isfinite(v)) or np.any(np.abs(v) >= 1e29):
+        k = int(np.argmax(~np.isfinite(v) | (np.abs(v) >= 1e29)))
+        bad.append("element %d of %d is %r (NaN / poison pattern survives: not initialised)" % (k, n, float(v[k])))
+        return bad
+    if doc[0] == "uniform":
+        lo, hi = float(doc[1]), float(doc[2])
+        eps = 1e-6 * max(1.0, abs(hi), abs(lo))
+        if v.min() < lo - eps or v.max() > hi + eps:
+            bad.append("values outside [low, high]: min %r max %r" % (float(v.min()), float(v.max())))
+        mu, sd, kurt = (lo + hi) / 2, (hi - lo) / math.sqrt(12), 1.8
+    else:
+        mu, sd, kurt = float(doc[1]), float(doc[2]), 3.0
+    start = BLOCK * (n // BLOCK)
+    blocks = [("tail block [%d:%d]" % (start, n), v[start:])] if n - start >= 64 else []
+    blocks += [("first block", v[:min(n, BLOCK)]), ("last 4096 elements", v[-4096:])]
+    for what, w in blocks:
+        m = w.size
+        vals, cnt = np.unique(w, return_counts=True)
+        if cnt.max() > max(3, 0.01 * m):
+            bad.append("%s: value %r repeated %d times in %d elements" % (what, float(vals[cnt.argmax()]), int(cnt.max()), m))
+            continue
+        zm = (w.mean() - mu) / (sd / math.sqrt(m))
+        zs = (w.std() - sd) / (sd * math.sqrt((kurt - 1) / (4 * m)))
+        if abs(zm) > 6 or abs(zs) > 6:
+            bad.append("%s: sample mean %r / std %r, documented %r / %r (z = %.1f / %.1f)" % (what, float(w.mean()), float(w.std()), mu, sd, zm, zs))
+    return bad
+
+
+def run_large(impl, seed):
+    """a few LARGE tensors per initialiser and dtype. Returns (cases, mismatches, witnesses, report)"""
+    np, sg = impl.np, impl.synapgrad
+    mism, wit, n, report = [], [], 0, []
+    fns = [("uniform_", {"a": -0.5, "b": 1.5}), ("normal_", {"mean": 0.25, "std": 0.5}), ("xavier_uniform_", {"gain": 2.0}), ("xavier_normal_", {"gain": 2.0}),
+           ("kaiming_uniform_", {"a": 0.2}), ("kaiming_normal_", {"mode": "fan_out", "nonlinearity": "relu"})]
+    for name, kw in fns:
+        for sh in LARGE_SHAPES + ([(65537,), (131077,)] if name in ("uniform_", "normal_") else []):
+            for dtype in (np.float32, np.float64):
+                n += 1
+                np.random.seed((seed + n) % (2 ** 31))
+                t = sg.Tensor(np.full(sh, np.nan, dtype=dtype), requires_grad=(n % 2 == 0))
+                junk = np.full(t.data.size, 1e30, dtype=dtype)      # poison memory that a fresh np.empty may recycle
+                del junk
+                if name in ("uniform_", "normal_"):
+                    doc = ("uniform", kw["a"], kw["b"]) if name == "uniform_" else ("normal", kw["mean"], kw["std"])
+                else:
+                    doc = doc_call(name, sh, kw)
+                with Recorder(np) as rec:
+                    try:
+                        out = getattr(impl.nn.init, name)(t, **kw)
+                        bad = judge_large(np, name, doc, rec.calls, t, out, None, sh, dtype)
+                    except Exception as ex:
+                        bad = ["raised %r" % ex]
+                if bad:
+                    desc = {"fn": name, "kwargs": kw, "shape": list(sh), "dtype": str(np.dtype(dtype)), "numpy_seed": (seed + n) % (2 ** 31), "prefill": "NaN"}
+                    mism.append(dict(desc, problems=bad))
+                    wit.append(("nn.init." + name, desc, "every element drawn from %s(%r, %r)" % doc, bad))
+    # layer defaults on large weights
+    for lname, args, wshape in (("Linear", (300, 300), (300, 300)), ("Conv2d", (32, 96, 5), (96, 32, 5, 5))):
+        n += 1
+        np.random.seed((seed + n) % (2 ** 31))
+        layer = getattr(impl.nn, lname)(*args)
+        w = layer.weight
+        w.data[...] = np.nan
+        fi, _ = doc_fans(wshape)
+        doc = ("uniform", -1.0 / math.sqrt(fi), 1.0 / math.sqrt(fi))
+        dt = w.data.dtype
+        with Recorder(np) as rec:
+            layer.reset_parameters()
+        wcalls = [c for c in rec.calls if _count(c[3]) != wshape[0]] or rec.calls[:1]     # calls for the weight (the bias has out_features samples)
+        bad = judge_large(np, lname, doc, wcalls, w, w, None, wshape, dt) if layer.weight is w else ["weight replaced"]
+        if bad:
+            desc = {"layer": lname, "args": list(args), "weight_shape": list(wshape), "dtype": str(dt), "numpy_seed": (seed + n) % (2 ** 31)}
+            mism.append(dict(desc, problems=bad))
+            wit.append(("nn.%s.reset_parameters" % lname, desc, "every weight drawn from uniform(%r, %r)" % (doc[1], doc[2]), bad))
+    return n, mism, wit
+
+
 def run(ctx):
     rng = ctx.rng
     gen = _gen()
@@ -532,6 +643,16 @@ def run(ctx):
                  "requires_grad on/off x float32/float64, and Linear/Conv1d/Conv2d.reset_parameters x contexts x bias x frozen: identity, shape, dtype, requires_grad, "
                  "_grad (object and contents), grad_fn, _children, name, every other attribute, module registration unchanged; global modes restored; only .data rebound")
 
+    # ---- large tensors
+    nlg, lgm, lgw = run_large(impl, ctx.seed)
+    witnesses += lgw
+    ctx.tie("init/large tensors", "correspondence", nlg, nlg, lgm,
+            note="6 sampling initialisers x shapes of 65536k+r elements ((1,65537), (70,1000), (300,300), (96,32,5,5), (2,65538), (256,256); rank-1 65537 / 131077 for "
+                 "uniform_/normal_) x float32/float64 on tensors pre-filled with NaN, and Linear(300,300) / Conv2d(32,96,5) defaults: number of samples requested from "
+                 "numpy.random == number of elements, every call with the documented arguments, no NaN / poison value survives, dtype/shape/identity kept, uniform values "
+                 "inside the bounds (deterministic); per block (tail block beyond the last multiple of 65536, first block, last 4096 elements): no value repeated in more than "
+                 "1% of the block, sample mean / std within 6 sigma of the documented ones (sampled, seeded numpy generator)")
+
     # ---- translator self-check summary
     if G is not None:
         ctx.tie("translator/IR vs real functions", "translator-selfcheck", gcases + fcases + len(cases) + len(MALFORMED) + pcases + lcases,
@@ -588,6 +709,19 @@ def replay(ctx, data):
     site, inp = data["site"], data["input"]
     print("site:", site, "input:", json.dumps(inp))
     name = site.split(".")[-1]
+    if "prefill" in inp:
+        sg = impl.synapgrad
+        sh, kw, fn = tuple(inp["shape"]), inp["kwargs"], inp["fn"]
+        np.random.seed(inp["numpy_seed"])
+        t = sg.Tensor(np.full(sh, np.nan, dtype=np.dtype(inp["dtype"])))
+        junk = np.full(t.data.size, 1e30, dtype=t.data.dtype)
+        del junk
+        doc = ("uniform", kw["a"], kw["b"]) if fn == "uniform_" else (("normal", kw["mean"], kw["std"]) if fn == "normal_" else doc_call(fn, sh, kw))
+        with Recorder(np) as rec:
+            out = getattr(impl.nn.init, fn)(t, **kw)
+        bad = judge_large(np, fn, doc, rec.calls, t, out, None, sh, np.dtype(inp["dtype"]))
+        print("problems:", bad if bad else "none (every element drawn with the documented arguments)")
+        return 1 if bad else 0
     if "context" in inp and "fn" in inp:
         bad = context_case(impl, inp["fn"], inp["kwargs"], inp["context"], inp["kind"], inp["requires_grad"], np.dtype(inp["dtype"]).type)
         print("changed although it must not:", bad if bad else "nothing (only .data was rebound)")
